@@ -1,6 +1,162 @@
-(* C17 -- property theorems only (stub, filled below) *)
-From Coq Require Import List Bool ZArith String.
-From Molli Require Import Model.Job.
+(* C17 -- "A job runs exactly what was asked and reports exactly what happened": property theorems only.
+   Model: Model/Job.v (binding of the shared Job descriptor; run_local over an arbitrary command oracle `exec`).
+   Tie: harness/c17.py replays real driver histories and real run_local executions in the model (check_bcase,
+   check_rcase evaluated by the kernel). *)
+From Coq Require Import List Bool NArith ZArith String.
 Import ListNotations.
-Example C17_stub : check_bcase (mk_bcase no_settings [] []) = true.
-Proof. reflexivity. Qed.
+From Molli Require Import Model.Job Proofs.Job.
+Local Open Scope string_scope.
+
+(* ================================================================== (i) binding *)
+(* After ANY history of creating, reassigning and using drivers (instances of any subclasses sharing the one Job
+   object), using driver i yields the Job's declared settings resolved against i's own class and instance
+   attributes ... *)
+Theorem C17_binding_value : forall decl evs i c s,
+  nget i (bs_drivers (fst (brun false (binit decl) evs))) = Some (c, s) ->
+  use_after decl evs i = Some (bind decl c s).
+Proof. exact binding_value. Qed.
+Print Assumptions C17_binding_value.
+
+(* ... i.e. exactly what it yields when every event about the other drivers is erased from the history. *)
+Theorem C17_binding_independent : forall decl evs i,
+  use_after decl evs i = use_after decl (filter (concerns i) evs) i.
+Proof. exact binding_independent. Qed.
+Print Assumptions C17_binding_independent.
+
+(* For a Job declared without settings of its own in a class without such attributes (all shipped drivers) the
+   bound job carries the instance's executable, processor count (default 1), memory (default 1000) and environment. *)
+Theorem C17_binding_reflects_instance : forall s, NoDup (map fst (env_of (s_env s))) ->
+  let b := bind no_settings no_settings s in
+  b_exe b = s_exe s /\ b_nprocs b = n_or (s_nprocs s) 1 /\ b_mem b = n_or (s_mem s) 1000 /\ b_env b = env_of (s_env s).
+Proof. exact bind_reflects_instance. Qed.
+Print Assumptions C17_binding_reflects_instance.
+
+(* The variant of __get__ that assigns to the shared descriptor (the code before the repair, DESIGN finding 19)
+   breaks the property: the second driver is bound with the first one's executable, nprocs and environment. *)
+Lemma C17_binding_sticky_refuted :
+  nth 3 (snd (brun true (binit no_settings) sticky_witness)) None
+  = Some (mk_bound (Some "sh") 4 1000 [("B", "2"); ("A", "1")])
+  /\ nth 3 (snd (brun false (binit no_settings) sticky_witness)) None
+  = Some (mk_bound (Some "bash") 8 1000 [("B", "2")]).
+Proof. exact sticky_refuted. Qed.
+
+Example C17_binding_nonvacuous :
+  let evs := [BCreate 1 no_settings (mk_settings (Some "sh") (Some 4%N) None (Some [("A", "1")]));
+              BCreate 2 (mk_settings None None None (Some [("K", "cls")])) (mk_settings (Some "bash") (Some 0%N) (Some 9%N) None);
+              BUse 1; BSet 2 (mk_settings (Some "zsh") (Some 2%N) None None); BUseCls 1; BUse 2] in
+  use_after no_settings evs 2 = Some (mk_bound (Some "zsh") 2 1000 [("K", "cls")])
+  /\ use_after no_settings evs 1 = Some (mk_bound (Some "sh") 4 1000 [("A", "1")]).
+Proof. split; reflexivity. Qed.
+
+(* ================================================================== (ii) run_local, for EVERY command oracle *)
+(* Commands run in order, each in the directory its predecessor left (first one: the materialised input files), with the
+   overlaid environment; all executed commands but the last succeeded; the loop stops early only behind a failing
+   command; nothing after the first failure is executed. *)
+Theorem C17_prefix : forall (cmd : Type) (exec : cmd -> env -> fs -> cmd_result) e cs f,
+  let sts := loop cmd exec e cs f in
+  (exists rest, (map (cmd_of cmd) sts ++ rest)%list = cs)
+  /\ chained cmd exec e f sts
+  /\ Forall (ok cmd) (removelast sts)
+  /\ (Forall (ok cmd) sts -> List.length sts = List.length cs)
+  /\ (List.length sts < List.length cs -> exists l s, sts = (l ++ [s])%list /\ r_code (st_res s) <> 0%Z)
+  /\ (cs <> [] -> sts <> []).
+Proof. exact loop_spec. Qed.
+Print Assumptions C17_prefix.
+
+(* what run_local executes is that loop over the job's commands, from the materialised files, under base | envars;
+   the effects outside the scratch directory are those of the executed commands only *)
+Theorem C17_executed : forall cmd exec hash scratch td base (inp : jobinput cmd),
+  let r := run_local cmd exec hash scratch td base inp in
+  rr_steps r = loop cmd exec (overlay base (ji_env inp)) (ji_cmds inp) (materialise (ji_files inp))
+  /\ rr_ext r = flat_map (fun s => r_ext (st_res s)) (rr_steps r)
+  /\ rr_outcome r = fst (body cmd exec hash base inp).
+Proof. exact run_local_steps. Qed.
+Print Assumptions C17_executed.
+
+(* When an output is written: exit status 0 <-> every command was executed and succeeded and every requested file
+   exists; the recorded exit code is 0 under exactly the same condition; the returned files are, as a map, the
+   requested names that exist in the final directory with their bytes; the output carries the input's hash; the
+   recorded stdouts/stderrs are the capture files read back. *)
+Theorem C17_exit_files_hash : forall cmd exec hash base (inp : jobinput cmd) st out sts,
+  body cmd exec hash base inp = (Done st out, sts) ->
+  let f := final_fs (materialise (ji_files inp)) sts in
+  sts = loop cmd exec (overlay base (ji_env inp)) (ji_cmds inp) (materialise (ji_files inp))
+  /\ ((st = 0%Z) <-> (all_succeeded cmd inp sts /\ forall n, In n (requested inp) -> dget n f <> None))
+  /\ ((jo_exitcode out = 0%Z) <-> (all_succeeded cmd inp sts /\ forall n, In n (requested inp) -> dget n f <> None))
+  /\ (forall n, dget n (jo_files out) = if existsb (String.eqb n) (requested inp) then dget n f else None)
+  /\ jo_hash out = hash inp
+  /\ read_caps ".out" f (names_of sts) [] = Some (jo_stdouts out)
+  /\ read_caps ".err" f (names_of sts) [] = Some (jo_stderrs out).
+Proof. exact body_done_facts. Qed.
+Print Assumptions C17_exit_files_hash.
+
+(* No output is written only if the job has no command at all or a capture file has disappeared. *)
+Theorem C17_crash_iff : forall cmd exec hash base (inp : jobinput cmd),
+  let sts := snd (body cmd exec hash base inp) in
+  fst (body cmd exec hash base inp) = Crashed <->
+  (ji_cmds inp = [] \/ read_caps ".out" (final_fs (materialise (ji_files inp)) sts) (names_of sts) [] = None
+                     \/ read_caps ".err" (final_fs (materialise (ji_files inp)) sts) (names_of sts) [] = None).
+Proof. exact body_crash_iff. Qed.
+Print Assumptions C17_crash_iff.
+
+(* Captures: if the executed named commands have distinct names and no command touches the capture files, reading
+   the captures cannot fail, every executed named command has exactly its stdout and stderr recorded under its name,
+   and no other name is recorded. *)
+Theorem C17_capture : forall (cmd : Type) (exec : cmd -> env -> fs -> cmd_result) (protected : list string),
+  (forall c e f x, In x protected -> dget x (r_fs (exec c e f)) = dget x f) ->
+  forall e cs f0,
+  let sts := loop cmd exec e cs f0 in
+  NoDup (names_of sts) ->
+  (forall x, In x (cap_files cmd cs) -> In x protected) ->
+  exists so se,
+    read_caps ".out" (final_fs f0 sts) (names_of sts) [] = Some so
+    /\ read_caps ".err" (final_fs f0 sts) (names_of sts) [] = Some se
+    /\ (forall s n, In s sts -> st_name s = Some n ->
+          dget n so = Some (r_out (st_res s)) /\ dget n se = Some (r_err (st_res s)))
+    /\ (forall n, ~ In n (names_of sts) -> dget n so = None /\ dget n se = None).
+Proof. exact captures_exact. Qed.
+Print Assumptions C17_capture.
+
+(* The first command sees every input file byte for byte and nothing else; commands see base | envars. *)
+Theorem C17_input_files : forall l n, NoDup (map fst l) -> dget n (materialise (Some l)) = dget n l.
+Proof. exact materialise_spec. Qed.
+Print Assumptions C17_input_files.
+
+Theorem C17_environment : forall base o v, NoDup (map fst o) ->
+  dget v (overlay base (Some o)) = match dget v o with Some x => Some x | None => dget v base end.
+Proof. exact overlay_spec. Qed.
+Print Assumptions C17_environment.
+
+(* The scratch directory is left as it was found on every path (normal return, failing command, missing file,
+   uncaught exception): the private directory is removed whichever way the body of the `with` block ended. *)
+Theorem C17_scratch : forall cmd exec hash scratch td base (inp : jobinput cmd),
+  rr_scratch (run_local cmd exec hash scratch td base inp) = scratch.
+Proof. exact scratch_restored. Qed.
+Print Assumptions C17_scratch.
+
+(* ---- the hypotheses are satisfiable, the conclusions are not vacuous *)
+(* an oracle whose commands only print and exit: (exit code, stdout, stderr) *)
+Definition print_exec (c : Z * string * string) (e : env) (f : fs) : cmd_result :=
+  mk_res (fst (fst c)) (snd (fst c)) (snd c) f [].
+
+Example C17_capture_hypotheses_satisfiable :
+  let cs := [((0%Z, "one", "e1"), Some "a"); ((0%Z, "two", ""), None); ((3%Z, "three", "e3"), Some "b"); ((0%Z, "never", ""), Some "c")] in
+  let sts := loop _ print_exec [] cs [("in.txt", "x")] in
+  (forall c e f x, In x (cap_files _ cs) -> dget x (r_fs (print_exec c e f)) = dget x f)
+  /\ NoDup (names_of sts)
+  /\ List.length sts = 3
+  /\ read_caps ".out" (final_fs [("in.txt", "x")] sts) (names_of sts) [] = Some [("a", "one"); ("b", "three")].
+Proof. cbv zeta. split; [reflexivity|]. split; [repeat constructor; simpl; intuition discriminate|]. split; reflexivity. Qed.
+
+(* a scripted job: the second of three commands fails; one of the two requested files was written before the
+   failure, the other would have been written after it *)
+Example C17_run_nonvacuous :
+  let inp := mk_ji "j" [(([PMark "m0"; POut "hello"; PCopy "in.bin" "r0"], 0%Z), Some "c0");
+                        (([PMark "m1"; PErr "oops"; PEnv "V"], 2%Z), Some "c1");
+                        (([PMark "m2"; PWrite "r1" "late"], 0%Z), None)]
+                  (Some [("in.bin", bytes [0; 255; 10]%N)]) (Some ["r0"; "r1"]) (Some [("V", "over")]) in
+  let r := run_local script sh_exec (fun _ => "H") ["other-job__x"] "j__1" [("V", "base")] inp in
+  rr_outcome r = Done 1 (mk_jo [("c0", "hello"); ("c1", "over")] [("c0", ""); ("c1", "oops")] 2
+                               [("r0", bytes [0; 255; 10]%N)] "H")
+  /\ rr_ext r = ["m0"; "m1"] /\ rr_scratch r = ["other-job__x"].
+Proof. cbv zeta. repeat split; reflexivity. Qed.
